@@ -9,6 +9,7 @@
 -/
 import Upnp.Lemmas.C02Total
 import Upnp.Lemmas.C02Listener
+import Upnp.Lemmas.C02Interface
 import Upnp.Gen.C01Ssdp
 import Upnp.Gen.C02Recv
 import Upnp.Gen.C02Sites
@@ -494,6 +495,36 @@ theorem model_judged_ok (hg : DecodeGuarantee) (cfg : Cfg) (ep : Endpoint) (t : 
     | see u => simpa [ok, Obs.dispatched, dispatchedM, hsort] using this
     | unsee u => simpa [ok, Obs.dispatched, dispatchedM, hsort] using this
     | respond => simpa [ok, Obs.dispatched, dispatchedM] using this
+
+/-! ### the interface assumption is a theorem about the decoder model -/
+
+/-- **C01 → C03**: every header map the (repaired) decoder model returns satisfies what the tracker
+    model assumes of it (`C03.Parse.RawOp.decoded`, the hypothesis of `parseEv_wf`, `c03_history_raw`,
+    `c04_history_raw`, `invalid_inert_raw`): when the USN yields a udn, `_udn` is that udn.  It was
+    FALSE of the code before the repair of F01a (a second spelling of `_udn` in the datagram won). -/
+theorem decode_guarantee : DecodeGuarantee := by
+  intro d loc src now rl h hd
+  obtain ⟨pairs, rfl⟩ := decodeX_ok' hd
+  exact decode_udn_guarantee pairs _ now loc src
+
+/-- the composed statements without hypothesis -/
+theorem dropped_inert_closed (cfg : Cfg) (ep : Endpoint) (t t' : Tracker) (eff : Eff) (data : Bytes)
+    (loc : Option Addr) (src : Addr) (now : Int) (hwf : classify cfg ep data loc src now = none)
+    (h : recv Fixes.all cfg ep t data loc src now = .ok (t', eff)) : eff = noEff ∧ t' = t :=
+  dropped_inert decode_guarantee cfg ep t t' eff data loc src now hwf h
+
+theorem dispatched_effect_closed (cfg : Cfg) (ep : Endpoint) (t t' : Tracker) (eff : Eff) (data : Bytes)
+    (loc : Option Addr) (src : Addr) (now : Int) (hn : C03.Inv t)
+    (h : recv Fixes.all cfg ep t data loc src now = .ok (t', eff)) :
+    C03.Inv t' ∧ ∀ d, classify cfg ep data loc src now = some d → dispatchedM t' eff d :=
+  dispatched_effect decode_guarantee cfg ep t t' eff data loc src now hn h
+
+theorem model_judged_ok_closed (cfg : Cfg) (ep : Endpoint) (t : Tracker) (data : Bytes) (loc : Option Addr)
+    (src : Addr) (now : Int) (hn : C03.Inv t) (sortKeys : List String → List String)
+    (hsort : ∀ l x, x ∈ sortKeys l ↔ x ∈ l) :
+    ∃ o, obsOf t (recv Fixes.all cfg ep t data loc src now) sortKeys = some o
+      ∧ ok (classify cfg ep data loc src now) o = true :=
+  model_judged_ok decode_guarantee cfg ep t data loc src now hn sortKeys hsort
 
 /-! ### each repair is necessary: one raising datagram per unrepaired variant
 
